@@ -370,3 +370,113 @@ contract('Solver.prune_states', heap=SOLVER_HEAP,
                                          f"forall(a, 0, len({SL_}), implies({SL_}[a].next_states == old({SL_}[a].next_states), forall(k, 0, len({OLDNSOF('a')}), {IN_REACH(f'tgt({OLDNSOF(chr(97))}[k])')})))"],
                         hint_pre=[f"forall(p, 0, len({SL_}), forall(p2, 0, len({SL_}), implies(p != p2, {SL_}[p] != {SL_}[p2])))"])},
          props=['C03', 'C02', 'C06', 'C10', 'C13', 'C14'])
+
+# ------------------------------------------------------------------ validation (C09): dynamically typed values  -- DESIGN A.5
+PV_FIELDS = {'next_states_pv': PYVAL}
+NSV = "self.next_states"
+
+
+def elem_ok(x, player="self.player", n="self.num_states"):
+    """the documented shape of one transition"""
+    return (f"(is_tuple({x}) and tlen({x}) == 2"
+            f" and implies({player} == PLAYER_1 or {player} == PLAYER_2, is_str(slot0({x})))"
+            f" and implies({player} == PROBABILISTIC, is_int(slot0({x})) or is_float(slot0({x})))"
+            f" and is_int(slot1({x})) and 0 <= intval(slot1({x})) and intval(slot1({x})) < {n})")
+
+
+NS_OK = f"(is_list({NSV}) and forall(k, 0, len(plist({NSV})), {elem_ok(f'plist({NSV})[k]')}))"
+C09_FIELDS = dict(FIELDS)
+C09_FIELDS['next_states'] = PYVAL          # in the validation functions the field holds an unvalidated Python value
+C09_FIELDS['transition_list'] = LIST(PYVAL)
+contract('Node.check_next_states', fields_override=C09_FIELDS, heap=['player', 'num_states', 'next_states'], lheap=[PYVAL],
+         params={'self': NODE}, locals={'next_state': PYVAL},
+         requires=[], modifies={},
+         ensures=[NS_OK],
+         raises=dict(exc=['ValueError'], when=[f"not {NS_OK}"], ensures=[]),
+         loops={0: dict(inv=[f"is_list({NSV})", f"forall(k, 0, _i, {elem_ok(f'plist({NSV})[k]')})"])},
+         props=['C09', 'C06', 'C12'])
+
+SG = REF('StochasticGame')
+SG_HEAP = ['rewards', 'players', 'transition_list', 'final_states', 'num_states', 'prune_states']
+WF_TOP = ["len(self.transition_list) == self.num_states", "len(self.rewards) == self.num_states",
+          "forall(k, 0, len(self.rewards), self.rewards[k] >= 0)",
+          "len(self.final_states) > 0", "forall(k, 0, len(self.final_states), 0 <= self.final_states[k] and self.final_states[k] < self.num_states)",
+          "forall(k, 0, len(self.players), self.players[k] == PLAYER_1 or self.players[k] == PLAYER_2 or self.players[k] == PROBABILISTIC)"]
+WF_TOP_ALL = "(" + " and ".join(f"({c})" for c in WF_TOP) + ")"
+contract('StochasticGame.check_game', fields_override=C09_FIELDS, heap=SG_HEAP, lheap=[PYVAL], minmax_empty_raises=True,
+         params={'self': SG}, locals={'player': STR},
+         requires=["self.num_states == len(self.players)"], modifies={},
+         ensures=WF_TOP,
+         raises=dict(exc=['ValueError'], when=[f"not {WF_TOP_ALL}"], ensures=[]),
+         loops={0: dict(inv=["forall(k, 0, _i, self.players[k] == PLAYER_1 or self.players[k] == PLAYER_2 or self.players[k] == PROBABILISTIC)"])},
+         props=['C09', 'C06', 'C12'])
+
+NODE_INIT_PARAMS = dict([('self', NODE), ('player', STR), ('idx', INT), ('reward', REAL), ('next_states', PYVAL), ('num_states', INT), ('is_final_node', BOOL)])
+NODE_FIELDS_SET = ["self.player == player", "self.idx == idx", "self.reward == reward", "self.next_states == next_states", "self.is_final_node == is_final_node",
+                   "self.reach_probability == (1 if is_final_node else 0)", "self.expected_rewards == reward", "self.expected_rewards_min_reach == reward",
+                   "self.expected_reach_min_rewards == 0", "self.num_states == num_states"]
+
+
+def ns_ok_of(v, player, n):
+    return f"(is_list({v}) and forall(k, 0, len(plist({v})), {elem_ok(f'plist({v})[k]', player, n)}))"
+
+
+NODE_MOD = {f: ['self'] for f in NODE_HEAP if f != '__class__'}
+for cls in ('Node', 'ProbabilisticNode', 'PlayerOne', 'PlayerTwo'):
+    contract(f'{cls}.__init__', constructor=True, fields_override=C09_FIELDS, heap=NODE_HEAP, lheap=[PYVAL],
+             params=dict(NODE_INIT_PARAMS, self=REF(cls) if cls != 'Node' else NODE),
+             defaults={'is_final_node': 'False'} if cls in ('PlayerOne', 'PlayerTwo') else {},
+             requires=[], modifies=NODE_MOD,
+             ensures=NODE_FIELDS_SET + [ns_ok_of('next_states', 'player', 'num_states')],
+             raises=dict(exc=['ValueError'], when=[f"not {ns_ok_of('next_states', 'player', 'num_states')}"], ensures=[]),
+             props=['C09', 'C06', 'C01', 'C12'])
+
+TLV = "self.transition_list"
+
+
+def state_ok(k):
+    return f"(truthy({TLV}[{k}]) and {ns_ok_of(f'{TLV}[{k}]', f'self.players[{k}]', 'self.num_states')})"
+
+
+ALL_STATES_OK = f"forall(q, 0, self.num_states, {state_ok('q')})"
+
+
+def node_of_state(L, k):
+    return (f"({L}[{k}].idx == {k} and {L}[{k}].player == self.players[{k}] and {L}[{k}].reward == self.rewards[{k}] and {L}[{k}].next_states == {TLV}[{k}]"
+            f" and {L}[{k}].num_states == self.num_states and {L}[{k}].is_final_node == exists(f, 0, len(self.final_states), self.final_states[f] == {k})"
+            f" and {L}[{k}].reach_probability == (1 if {L}[{k}].is_final_node else 0)"
+            f" and iff({L}[{k}].player == PLAYER_1, cls({L}[{k}]) == 1) and iff({L}[{k}].player == PLAYER_2, cls({L}[{k}]) == 2) and iff({L}[{k}].player == PROBABILISTIC, cls({L}[{k}]) == 0))")
+
+
+contract('StochasticGame.init_states', fields_override=C09_FIELDS, heap=SG_HEAP + NODE_HEAP, lheap=[PYVAL],
+         constructors={'PlayerOne': 'tad.PlayerOne.__init__', 'PlayerTwo': 'tad.PlayerTwo.__init__', 'ProbabilisticNode': 'tad.ProbabilisticNode.__init__'},
+         params={'self': SG}, result=SLT,
+         locals={'state_list': SLT, 'idx': INT, 'player': STR, 'transitions': PYVAL, 'reward': REAL, '__hoisted': NODE},
+         requires=WF_TOP + ["self.num_states == len(self.players)", "0 <= self and self < alloc_o()"],
+         ensures=["len(result) == self.num_states", ALL_STATES_OK, f"forall(q, 0, self.num_states, {node_of_state('result', 'q')})",
+                  "forall(q, 0, len(result), result[q] >= old(alloc_o()))"],
+         raises=dict(exc=['ValueError'], when=[f"not {ALL_STATES_OK}"], ensures=[]),
+         modifies={f: ["_o >= alloc_o()"] for f in NODE_HEAP},
+         loops={0: dict(inv=["len(state_list) <= _i", f"implies(len(state_list) == _i, forall(q, 0, _i, {state_ok('q')} and {node_of_state('state_list', 'q')}))",
+                             f"implies(len(state_list) < _i, exists(q, 0, _i, not truthy({TLV}[q])))",
+                             "forall(q, 0, len(state_list), state_list[q] >= old(alloc_o()) and state_list[q] < alloc_o())", "alloc_o() >= old(alloc_o())"]
+                        + [f"forall(o, implies(o < old(alloc_o()), {h}[o] == old({h}[o])))" for h in ('PLAYER', 'IDX', 'RP', 'CLS')])},
+         props=['C09', 'C06', 'C10', 'C12'])
+
+# ---- StochasticGame.__init__ and the validating prefix of solve (C09): a malformed description never reaches the solver
+contract('StochasticGame.__init__', constructor=True, fields_override=C09_FIELDS, heap=SG_HEAP, lheap=[PYVAL],
+         params=dict([('self', SG), ('rewards', LIST(REAL)), ('players', LIST(STR)), ('transition_list', LIST(PYVAL)), ('final_states', LIST(INT)), ('prune_states', BOOL)]),
+         defaults={'prune_states': 'True'}, requires=[], modifies={f: ['self'] for f in SG_HEAP},
+         ensures=["self.rewards == rewards", "self.players == players", "self.transition_list == transition_list", "self.final_states == final_states",
+                  "self.num_states == len(players)", "self.prune_states == prune_states"],
+         list_eq_structural=True,
+         props=['C09', 'C12'])
+WF_ALL = WF_TOP + [ALL_STATES_OK]
+contract('StochasticGame.solve', fields_override=C09_FIELDS, heap=SG_HEAP + NODE_HEAP, lheap=[PYVAL],
+         params={'self': SG}, locals={'state_list': SLT},
+         requires=["self.num_states == len(self.players)", "0 <= self and self < alloc_o()"],
+         cut_before_assign='solver',
+         ensures_at_cut=WF_ALL + [f"forall(q, 0, self.num_states, {node_of_state('state_list', 'q')})", "len(state_list) == self.num_states"],
+         raises=dict(exc=['ValueError'], when=["not (" + " and ".join(f"({c})" for c in WF_ALL) + ")"], ensures=[]),
+         modifies={f: ["_o >= alloc_o()"] for f in NODE_HEAP},
+         props=['C09', 'C12'])
